@@ -19,7 +19,7 @@ import (
 // A probe installed as the first global middleware snapshots the context at
 // entry of every request.
 
-var kindNames = []string{"store", "errors", "abort", "status-write", "replace-resp", "replace-req", "set-handlers", "dynamic", "dynamic2", "notfound", "notallowed", "panic", "redispatch", "nested", "copy", "mutate-params", "dynamic3", "delegate", "hijack", "mutate-novar", "novar", "keep-copy", "panic-status", "mutate-query", "query", "render-fail", "render-ok", "hijack2", "notallowed3", "flush", "mutate-static", "static"}
+var kindNames = []string{"store", "errors", "abort", "status-write", "replace-resp", "replace-req", "set-handlers", "dynamic", "dynamic2", "notfound", "notallowed", "panic", "redispatch", "nested", "copy", "mutate-params", "dynamic3", "delegate", "hijack", "mutate-novar", "novar", "keep-copy", "panic-status", "mutate-query", "query", "render-fail", "render-ok", "hijack2", "notallowed3", "flush", "mutate-static", "static", "json"}
 
 type kindReq struct {
 	method, path string
@@ -69,6 +69,8 @@ var kindReqs = map[string]kindReq{
 	// none), and a plain request for the same route
 	"mutate-static": {"POST", "/ms"},
 	"static":        {"GET", "/ms"},
+	// a handler that answers through the JSON helper (pkg/render)
+	"json": {"GET", "/json"},
 }
 
 // kindParams: the parameters a request for the path must find in its context at entry (the variables of its route)
@@ -314,6 +316,7 @@ func newKindRouter(cfg kindCfg) *kindRouter {
 	} else {
 		r.Add("/ms", ms, "GET", "POST")
 	}
+	get("/json", func(c *rux.Context) { c.JSON(200, rux.M{"a": 1, "list": []int{1, 2}}) })
 	get("/copy", func(c *rux.Context) {
 		cp := c.Copy()
 		cp.Set("in-copy", 1)
